@@ -160,3 +160,11 @@ impl MetricCounter {
     #[verifier::external_body]
     pub fn fetch_add(&self, n: u64, ord: Ordering) -> (r: u64) { unimplemented!() }
 }
+
+// the offset a polling consumer has stored in this partition: individual consumers and consumer groups have separate maps
+pub open spec fn stored_offset(p: &Partition, c: PollingConsumer) -> Option<u64> {
+    match c {
+        PollingConsumer::Consumer(id, _) => if p.consumer_offsets@.contains_key(id) { Some(p.consumer_offsets@[id].offset) } else { None },
+        PollingConsumer::ConsumerGroup(id, _) => if p.consumer_group_offsets@.contains_key(id) { Some(p.consumer_group_offsets@[id].offset) } else { None },
+    }
+}
